@@ -136,6 +136,20 @@ def variants(tier):
     return out
 
 
+def doc_for(idx, tier):
+    """The selector document holding the given variants (used by C09/C15 as an attribute-coverage family)."""
+    allv = variants(tier)
+    specs = []
+    for j, i in enumerate(idx):
+        label, mk, w, pats, sels = allv[i]
+        pt = mk(f"T{j}", f"F_{j}")
+        pts, prs, ents, tail = docs.framed_field_variant(pt, 2, w, str(j))
+        prs = [Param("SEL", "SEL_T") if p.name == f"PAD_{j}" else p for p in prs]
+        ents = [("p", "SEL") if e == ("p", f"PAD_{j}") else e for e in ents]
+        specs.append(([PType("SEL_T", "Integer", IntEnc(2))] + list(pts), prs, ents))
+    return docs.selector_doc(specs)
+
+
 def _task(task):
     t = Tally()
     allv = variants(task["tier"])
